@@ -252,26 +252,40 @@ func harnessC09Whole() {
 }
 
 // c09Frames: fixed openings and closings of the constructs whose shortest instances are longer than the
-// whole-text bound: category and class names, repetition bounds, hexadecimal escapes, groups.
-var c09Frames = [][2]string{
-	{"\\p{", "}"}, {"\\P{", "}"}, {"[\\p{", "}]"}, {"[^a\\p{", "}]"},
-	{"[[:", ":]]"}, {"[^[:", ":]]"}, {"[:", ":]"},
-	{"a{", "}"}, {"(ab){", "}?"},
-	{"\\x", ""}, {"[\\x", "]"}, {"[a-\\x", "]"},
-	{"(a|", ")*"}, {"[^", "]+"},
+// whole-text bound (category and class names, repetition bounds, hexadecimal escapes), each with the largest
+// number of arbitrary characters put between them (frames whose middle lands inside a bracket group are kept
+// short: the mappers branch on every member of a group).
+var c09Frames = []struct {
+	open, close string
+	n           int
+}{
+	{"\\p{", "}", c09FrameN + 1}, {"\\P{", "}", c09FrameN + 1}, {"[\\p{", "}]", c09FrameN + 1}, {"[^a\\p{", "}]", c09FrameN - 1},
+	{"[[:", ":]]", c09FrameN + 1}, {"[^[:", ":]]", c09FrameN},
+	{"a{", "}", c09FrameN - 1}, {"(ab){", "}?", c09FrameN - 1},
+	{"\\x", "", 3}, {"a\\x00", "b", 3}, {"[\\x", "]", 2}, // every hexadecimal digit left open multiplies the values by 16
+	{"(a|", ")*", 2},
 }
 
 // harnessC09Framed: the same assertion as harnessC09Whole on texts made of one of the fixed frames around
-// up to c09FrameN arbitrary printable characters: an unknown category or class name, a malformed bound or
-// escape inside the frame must make the whole text rejected.
+// arbitrary printable characters: an unknown category or class name, a malformed bound or escape inside the
+// frame must make the whole text rejected.
 func harnessC09Framed() {
-	fr := c09Frames[verif.Pick("frame", len(c09Frames))]
-	n := verif.Len("n", 0, c09FrameN)
+	fi := verif.Pick("frame", len(c09Frames))
+	if c09FrameOnly >= 0 {
+		verif.Assume(fi == c09FrameOnly)
+	}
+	fr := c09Frames[fi]
+	n := verif.Len("n", 0, c09FrameN+1)
+	verif.Assume(n <= fr.n)
 	mid := verif.Bytes("p", n)
 	for i := range mid {
 		verif.Assume(verif.And(mid[i] >= 0x20, mid[i] <= 0x7E))
+		if n > c09FrameN {
+			// the longest middles (names of categories and classes) are made of letters only
+			verif.Assume(verif.Or(verif.And(mid[i] >= 'A', mid[i] <= 'Z'), verif.And(mid[i] >= 'a', mid[i] <= 'z')))
+		}
 	}
-	b := append(append([]byte(fr[0]), mid...), fr[1]...)
+	b := append(append([]byte(fr.open), mid...), fr.close...)
 	res, err := Parse(verif.String(b))
 	if err != nil {
 		verif.Reach("rejected")
@@ -279,7 +293,7 @@ func harnessC09Framed() {
 	}
 	verif.Reach("accepted")
 	_ = res
-	verif.Assert(sentence(b), "a text that is not (as a whole) a sentence of the documented pattern grammar is accepted: "+fr[0]+"..."+fr[1])
+	verif.Assert(sentence(b), "a text that is not (as a whole) a sentence of the documented pattern grammar is accepted: "+fr.open+"..."+fr.close)
 }
 
 // harnessC09Meaningless: grammatical but meaningless patterns are rejected with an error naming the
